@@ -18,37 +18,19 @@ theorem strs_ok : ∀ l : List String, nodeColsL (l.map Val.str) = .ok []
   | [] => by simp
   | _ :: r => by simp [strs_ok r]
 
-/-! the model's test (printed form ∈ `GLOBAL_VARIABLE_NAME_SET`) is the specification's: an unqualified
-`CURRENT_DATE` / `CURRENT_TIME` / `CURRENT_TIMESTAMP` -/
-theorem bq_ne (x l : String) (h : l.toList.head? ≠ some '`') : "`" ++ x ≠ l := by
-  intro e; apply h; rw [← e]; simp [String.toList_append]
-theorem bq_notGlobal (x : String) : Gen.globalVarNames.contains ("`" ++ x) = false := by
-  simp only [Gen.globalVarNames, List.contains_cons, List.contains_nil, Bool.or_false, Bool.or_eq_false_iff, beq_eq_false_iff_ne, ne_eq]
-  refine ⟨?_, ?_, ?_, ?_, ?_, ?_⟩ <;> exact bq_ne _ _ (by decide)
-theorem bq_notMem (x : String) : ¬ ("`" ++ x) ∈ Gen.globalVarNames := by
-  have := bq_notGlobal x
-  simpa using this
+/-- the model's test (`column_name.upper()` in the repository's `GLOBAL_VARIABLE_NAME_SET`, no qualifier) is the
+specification's: an unqualified dialect variable in any letter case -/
 theorem isGlobalVariable_eq (t : Option String) (c : String) : isGlobalVariable t c = isGlobal t c := by
-  unfold isGlobalVariable PR.columnSrc isGlobal
-  have hts : ∀ s : String, toString s = s := fun _ => rfl
-  simp only [hts, String.append_assoc]
-  generalize hp : ["*", "CURRENT_DATE", "CURRENT_TIME", "CURRENT_TIMESTAMP"].contains c = p
-  cases p <;> cases t
-  · rw [show (Gen.D.DEFAULT == Gen.D.DB2) = false from by decide]
-    simp at hp
-    simp [bq_notMem, hp]
-  · rw [show (Gen.D.DEFAULT == Gen.D.DB2) = false from by decide]
-    simp [bq_notMem]
-  · rw [show (Gen.D.DEFAULT == Gen.D.DB2) = false from by decide]
-    simp at hp
-    rcases hp with h | h | h | h <;> subst h <;> decide
-  · rw [show (Gen.D.DEFAULT == Gen.D.DB2) = false from by decide]
-    simp [bq_notMem]
+  unfold isGlobalVariable isGlobal
+  generalize Gen.pyUpperS c = u
+  cases t <;> simp [Gen.globalVarNames]
+  by_cases h1 : u = "CURRENT_DATE" <;> by_cases h2 : u = "CURRENT_TIME" <;> by_cases h3 : u = "CURRENT_TIMESTAMP" <;>
+    by_cases h4 : u = "CURRENT DATE" <;> by_cases h5 : u = "CURRENT TIME" <;> by_cases h6 : u = "CURRENT TIMESTAMP" <;> simp [*]
 
 /-- the class of a CASE arm is none of the special-cased classes -/
 def plainClass (cls : String) : Bool :=
   !(cls == "ASTAggregationFunction" || cls == "ASTWildcardExpression" || cls == "ASTColumnNameExpression"
-    || cls == "ASTGroupByClause" || cls == "ASTOrderByClause" || cls == "ASTSubQueryExpression")
+    || cls == "ASTGroupByClause" || cls == "ASTOrderByClause" || cls == "ASTSubQueryExpression" || cls == "ASTWithClause")
 
 mutual
 theorem expr_ok : ∀ e : Expr, nodeColsV e.toVal = R (colsE e)
@@ -186,22 +168,21 @@ theorem having_ok : ∀ hv : Option Expr, nodeColsV (havingClauseVal hv) = R (co
   | none => by simp [havingClauseVal, colsOE]
   | some e => by simp [havingClauseVal, colsOE, expr_ok e]
 
-/-- the ordinal test of the implementation (made on the *printed* item, `source()` in the default dialect) agrees with
-the specification's (the item is an integer literal).  It holds for every literal; it excludes items such as `+1` /
-`-1` (which print as integers) and items the default dialect cannot print (`a[1]`). -/
-def OrdinalFaithful (e : Expr) : Prop :=
-  (do let s ← PR.prE .DEFAULT e; ordinalOfSource s : Except Err (Option Int)) = .ok (ordinalOfExpr e)
+/-- the only texts outside the modelled fragment: an integer-looking literal written with non-ASCII digits (Python's `\d`
+and `int()` accept them).  Every other item — in particular every non-literal — satisfies this. -/
+def OrdinalFaithful : Expr → Prop
+  | .literal v => ∃ k, ordinalOfSource v = .ok k
+  | _ => True
 
 theorem ordinalOrCols_ok (e : Expr) (v : Val) (h : OrdinalFaithful e) (hv : nodeColsV v = R (colsE e)) :
     ordinalOrCols e v = R (itemRefs e) := by
-  unfold OrdinalFaithful at h
   unfold ordinalOrCols itemRefs
-  cases hp : PR.prE .DEFAULT e with
-  | error x => simp [hp] at h
-  | ok s =>
-    simp [hp] at h
-    simp [h]
-    cases ordinalOfExpr e <;> simp [hv]
+  cases e with
+  | literal s =>
+    obtain ⟨k, hk⟩ := h
+    simp only [hk, ordinalOfExpr, bind, Except.bind]
+    cases k <;> simp [hv]
+  | _ => simp [ordinalOfExpr, hv]
 
 theorem groupItems_ok : ∀ es : List Expr, (∀ e ∈ es, OrdinalFaithful e) → groupItems es = R (colsGroupItems es)
   | [], _ => by simp [groupItems, colsGroupItems]
@@ -426,11 +407,11 @@ def OrderFaithful : Select → Prop
 substitution, i.e. none is an unqualified name equal to a select-list alias -/
 def Clean (c : Clause) (s : Select) : Prop := ∀ r ∈ colsOf c s, resolve1 (Select.cols s) r = [r]
 
-/-- **the excluded cases of F-C15-2 and of the Hive clauses**: the SELECT has no WITH tables, LATERAL VIEW, SORT BY,
-DISTRIBUTE BY or CLUSTER BY (their references are reported by the all-clauses analyzer although they belong to none
-of the six clauses — those of a WITH table belong to another query level) -/
+/-- **the excluded Hive clauses**: the SELECT has no LATERAL VIEW, SORT BY, DISTRIBUTE BY or CLUSTER BY (their references are
+reported by the all-clauses analyzer although they belong to none of the six clauses).  WITH tables are no longer excluded:
+since bed929d the collection does not enter the WITH clause (F-C15-2, fixed). -/
 def Plain : Select → Prop
-  | .mk ws _ _ _ lats _ _ _ _ _ sb db cb _ => (ws = none ∨ ws = some []) ∧ lats = [] ∧ sb = none ∧ db = none ∧ cb = none
+  | .mk _ _ _ _ lats _ _ _ _ _ sb db cb _ => lats = [] ∧ sb = none ∧ db = none ∧ cb = none
 
 /-- what each clause analyzer passes to the substitution: exactly the references written in that clause
 (level-local: `colsOf` never looks into a sub-query) -/
@@ -507,11 +488,9 @@ theorem clause_all (s : Select) (hp : Plain s) (hg : GroupFaithful s) (ho : Orde
     clauseCols .all s = .ok (colsOf .all s) := by
   cases s with
   | mk ws dist cols fr lats js wh gb hv ob sb db cb lm =>
-    obtain ⟨hws, hl, hsb, hdb, hcb⟩ := hp
+    obtain ⟨hl, hsb, hdb, hcb⟩ := hp
     subst hl; subst hsb; subst hdb; subst hcb
-    have hw : nodeColsWiths ws = R [] := by
-      rcases hws with h | h <;> subst h <;> simp [nodeColsWiths, nodeColsWithTables]
-    simp only [clauseCols, nodeColsSelect, hw, selectClause_ok, fromClause_nil, joins_ok js, where_ok, group_ok gb hg, having_ok,
+    simp only [clauseCols, nodeColsSelect, selectClause_ok, fromClause_nil, joins_ok js, where_ok, group_ok gb hg, having_ok,
       order_clause_ok ob ho, limit_nil, laterals, sortByClauseVal, distributeByClauseVal, clusterByClauseVal, nodeColsV, nodeColsL,
       R, bind, Except.bind, pure, Except.pure]
     simp [colsOf, colsOf.colsOf']
@@ -568,10 +547,10 @@ theorem query_exact_partial (c : Clause) (q : Query) (h : ∀ s ∈ branchesOf q
     have h2 := union_ok c us (fun p hp => h p.2 (by simp [branchesOf]; exact Or.inr ⟨p.1, hp⟩))
     simp [currentCols, specQuery, h1, h2]
 
-/-- every integer-literal item (and every other literal) passes the faithfulness test, provided it is ASCII -/
-theorem literal_faithful (v : String) (h : ∃ k, ordinalOfSource v = .ok k) : OrdinalFaithful (.literal v) := by
-  obtain ⟨k, hk⟩ := h
-  simp [OrdinalFaithful, PR.prE, ordinalOfExpr, hk]
+/-- every literal whose ordinal test does not leave the modelled fragment is faithful; every non-literal is -/
+theorem literal_faithful (v : String) (h : ∃ k, ordinalOfSource v = .ok k) : OrdinalFaithful (.literal v) := h
+theorem nonliteral_faithful (e : Expr) (h : ∀ v, e ≠ .literal v) : OrdinalFaithful e := by
+  cases e <;> simp [OrdinalFaithful] at h ⊢
 
 /-! ## level-locality: the references of an expression do not depend on the bodies of its sub-queries -/
 
@@ -684,31 +663,29 @@ def wWith : Select :=
       none none none none none none none none))]) false [(.column none "a", none)] (some [.mk (.table none "w") none]) [] []
     none none none none none none none none
 
-/-- **F-C15-2**: the all-clauses analysis of `WITH w AS (SELECT x FROM t) SELECT a FROM w` also reports `x`, a column of
-another query level -/
-theorem witness_with_leak :
-    (match currentColsSelect .all wWith with | .ok l => l | .error _ => []) = [⟨none, some "x", none⟩, ⟨none, some "a", none⟩]
+/-- **F-C15-2 (fixed by bed929d)**: the all-clauses analysis of `WITH w AS (SELECT x FROM t) SELECT a FROM w` reports `a` only -/
+theorem fixed_with_leak :
+    (match currentColsSelect .all wWith with | .ok l => l | .error _ => []) = [⟨none, some "a", none⟩]
       ∧ spec .all wWith = [⟨none, some "a", none⟩] := by
   decide +kernel
 
-/-- **F-C15-3**: `current_date` in lower case is a column for the model (and the implementation); the upper-case form is not -/
-theorem witness_lower_case_variable :
-    nodeColsV (Expr.column none "current_date").toVal = .ok [⟨none, some "current_date", none⟩]
-      ∧ nodeColsV (Expr.column none "CURRENT_DATE").toVal = .ok [] := by
-  rw [expr_ok, expr_ok]
-  refine ⟨congrArg _ ?_, congrArg _ ?_⟩ <;> decide +kernel
+/-- **F-C15-3 (fixed by 07335d7)**: a dialect variable is not a column in any letter case -/
+theorem fixed_lower_case_variable :
+    nodeColsV (Expr.column none "current_date").toVal = .ok [] ∧ nodeColsV (Expr.column none "CURRENT_DATE").toVal = .ok []
+      ∧ nodeColsV (Expr.column (some "t") "current_date").toVal = .ok [⟨some "t", some "current_date", none⟩] := by
+  rw [expr_ok, expr_ok, expr_ok]
+  refine ⟨congrArg _ ?_, congrArg _ ?_, congrArg _ ?_⟩ <;> decide +kernel
 
 /-- `SELECT a FROM t ORDER BY e[1]` -/
 def wIndex : Select :=
   .mk (some []) false [(.column none "a", none)] (some [.mk (.table none "t") none]) [] [] none none none
     (some [.mk (.index (.column none "e") (.literal "1")) false false false]) none none none none
 
-/-- **F-C15-4**: the ORDER BY analysis of `SELECT a FROM t ORDER BY e[1]` raises `NotSupportError` (the item is printed in the
-default dialect for the ordinal test); the item is exactly what `OrderFaithful` excludes -/
-theorem witness_array_index_order :
-    (match currentColsSelect .order wIndex with | .error .notSupported => true | _ => false) = true
-      ∧ spec .order wIndex = [⟨none, some "e", none⟩] := by
-  decide +kernel
+/-- **F-C15-4 (fixed by ed4e409)**: the ORDER BY analysis of `SELECT a FROM t ORDER BY e[1]` reports `e`; no hypothesis on the
+item is needed any more (`OrderFaithful` holds of every non-literal) -/
+theorem fixed_array_index_order : currentColsSelect .order wIndex = .ok [⟨none, some "e", none⟩] := by
+  rw [order_exact wIndex (by simp [OrderFaithful, orderExprs, wIndex, OrdinalFaithful])]
+  exact congrArg _ (by decide +kernel)
 
 /-! ## non-vacuity -/
 
